@@ -42,3 +42,77 @@ Fixpoint toks_eqb (a b : list tok) : bool :=
   | x :: a', y :: b' => tok_eqb x y && toks_eqb a' b'
   | _, _ => false
   end.
+
+(** boolean equality of lowered programs *)
+Definition ivar_eqb (a b : ivar) : bool := Nat.eqb (fst a) (fst b) && Nat.eqb (snd a) (snd b).
+Definition ilt_eqb (a b : ilt) : bool :=
+  match a, b with
+  | LVar x, LVar y => ivar_eqb x y
+  | LStatic, LStatic | LErased, LErased => true
+  | _, _ => false
+  end.
+Fixpoint list_eqb {A} (eqb : A -> A -> bool) (a b : list A) : bool :=
+  match a, b with
+  | [], [] => true
+  | x :: a', y :: b' => eqb x y && list_eqb eqb a' b'
+  | _, _ => false
+  end.
+Fixpoint ity_eqb (a b : ity) {struct a} : bool :=
+  match a, b with
+  | TVar x, TVar y => ivar_eqb x y
+  | TAdt i xs, TAdt j ys =>
+      Nat.eqb i j && (fix go (l1 l2 : list igarg) : bool :=
+                        match l1, l2 with
+                        | [], [] => true
+                        | x :: r1, y :: r2 => igarg_eqb x y && go r1 r2
+                        | _, _ => false
+                        end) xs ys
+  | TScalar s, TScalar s' => Nat.eqb (scalar_code s) (scalar_code s')
+  | TTuple xs, TTuple ys =>
+      (fix go (l1 l2 : list ity) : bool :=
+         match l1, l2 with
+         | [], [] => true
+         | x :: r1, y :: r2 => ity_eqb x y && go r1 r2
+         | _, _ => false
+         end) xs ys
+  | TRef m l t, TRef m' l' t' => Bool.eqb m m' && ilt_eqb l l' && ity_eqb t t'
+  | _, _ => false
+  end
+with igarg_eqb (a b : igarg) {struct a} : bool :=
+  match a, b with
+  | GTy x, GTy y => ity_eqb x y
+  | GLt x, GLt y => ilt_eqb x y
+  | _, _ => false
+  end.
+Definition iwc_eqb (a b : iwc) : bool :=
+  match a, b with
+  | WImpl s t xs, WImpl s' t' ys => ity_eqb s s' && Nat.eqb t t' && list_eqb igarg_eqb xs ys
+  | WLtOut x y, WLtOut x' y' => ilt_eqb x x' && ilt_eqb y y'
+  | WTyOut t l, WTyOut t' l' => ity_eqb t t' && ilt_eqb l l'
+  | _, _ => false
+  end.
+Definition kinds_eqb' := list_eqb kind_eqb.
+Definition iqwc_eqb (a b : iqwc) : bool := kinds_eqb' (fst a) (fst b) && iwc_eqb (snd a) (snd b).
+Definition sflags_eqb (a b : sflags) : bool :=
+  Bool.eqb a.(sf_upstream) b.(sf_upstream) && Bool.eqb a.(sf_fundamental) b.(sf_fundamental) && Bool.eqb a.(sf_phantom_data) b.(sf_phantom_data).
+Definition tflags_eqb (a b : tflags) : bool :=
+  Bool.eqb a.(tf_auto) b.(tf_auto) && Bool.eqb a.(tf_marker) b.(tf_marker) && Bool.eqb a.(tf_upstream) b.(tf_upstream)
+  && Bool.eqb a.(tf_fundamental) b.(tf_fundamental) && Bool.eqb a.(tf_non_enumerable) b.(tf_non_enumerable)
+  && Bool.eqb a.(tf_coinductive) b.(tf_coinductive) && Bool.eqb a.(tf_object_safe) b.(tf_object_safe).
+Definition iitem_eqb (a b : iitem) : bool :=
+  match a, b with
+  | IStruct n ps fl fs ws, IStruct n' ps' fl' fs' ws' =>
+      N.eqb n n' && kinds_eqb' ps ps' && sflags_eqb fl fl' && list_eqb ity_eqb fs fs' && list_eqb iqwc_eqb ws ws'
+  | ITrait n ps fl ws, ITrait n' ps' fl' ws' =>
+      N.eqb n n' && kinds_eqb' ps ps' && tflags_eqb fl fl' && list_eqb iqwc_eqb ws ws'
+  | IImpl ps up pos tr args self ws, IImpl ps' up' pos' tr' args' self' ws' =>
+      kinds_eqb' ps ps' && Bool.eqb up up' && Bool.eqb pos pos' && Nat.eqb tr tr' && list_eqb igarg_eqb args args'
+      && ity_eqb self self' && list_eqb iqwc_eqb ws ws'
+  | _, _ => false
+  end.
+Definition oprogram_eqb (a b : option program) : bool :=
+  match a, b with
+  | Some x, Some y => list_eqb iitem_eqb x y
+  | None, None => true
+  | _, _ => false
+  end.
